@@ -57,8 +57,8 @@ func (c *regexpSimplifyChecker) VisitExpr(x ast.Expr) {
 		return
 	}
 
-	switch qualifiedName(call.Fun) {
-	case "regexp.Compile", "regexp.MustCompile":
+	switch {
+	case isPkgFunc(c.ctx.TypesInfo, call.Fun, "regexp", "Compile"), isPkgFunc(c.ctx.TypesInfo, call.Fun, "regexp", "MustCompile"):
 		if len(call.Args) == 0 {
 			return
 		}
